@@ -213,6 +213,27 @@ func NegateS(sig [65]byte) [65]byte {
 
 // PubFromSec derives the compressed public key of a secret scalar.
 func PubFromSec(sec [32]byte) ([33]byte, bool) {
+	recMu.Lock()
+	if v, hit := pubCache[sec]; hit {
+		recMu.Unlock()
+		return v, true
+	}
+	recMu.Unlock()
+	p, ok := pubFromSecSlow(sec)
+	if ok {
+		recMu.Lock()
+		if len(pubCache) > 100000 {
+			pubCache = map[[32]byte][33]byte{}
+		}
+		pubCache[sec] = p
+		recMu.Unlock()
+	}
+	return p, ok
+}
+
+var pubCache = map[[32]byte][33]byte{}
+
+func pubFromSecSlow(sec [32]byte) ([33]byte, bool) {
 	k := new(big.Int).SetBytes(sec[:])
 	if k.Sign() == 0 || k.Cmp(curveN) >= 0 {
 		return [33]byte{}, false
